@@ -37,6 +37,10 @@ SCENARIOS: List[Dict[str, Any]] = [
     {"name": "yield_t3_ops", "ov": {"scheduler": {"enabled": True, "quantum_ms": 100000, "budgets": {"wall_ms": 200000, "t3_ops": 1}}}, "steps": 4},
     {"name": "yield_graph_fair", "ov": {"scheduler": {"enabled": True, "policy": "fair_queue", "quantum_ms": 100000, "budgets": {"wall_ms": 200000, "t2_k": 0}},
                                         "graph": {"enabled": True}}, "steps": 6, "flags": ["--policy", "fair_queue"]},
+    {"name": "yield_fair_mct1", "ov": {"scheduler": {"enabled": True, "quantum_ms": 100000, "budgets": {"wall_ms": 200000, "t2_k": 0},
+                                                     "fairness": {"max_consecutive_turns": 1, "aging_ms": 200}}}, "steps": 8},
+    {"name": "yield_fairq_mct2", "ov": {"scheduler": {"enabled": True, "policy": "fair_queue", "quantum_ms": 100000, "budgets": {"wall_ms": 200000, "t1_pops": 0},
+                                                      "fairness": {"max_consecutive_turns": 2, "aging_ms": 200}}}, "steps": 9, "flags": ["--policy", "fair_queue"]},
     {"name": "sched_kill", "ov": {"scheduler": {"enabled": True, "quantum_ms": 100000, "budgets": {"wall_ms": 200000}}, "t4": {"enabled": False}}, "steps": 3},
     {"name": "two_agents", "ov": {"graph": {"enabled": True}}, "steps": 5, "flags": ["--agents", "Zed,alpha"]},
 ]
@@ -103,6 +107,37 @@ def run_scenario(args) -> Dict[str, Any]:
                            "snap": (_listing(snapdir), _listing(snapdir2)) != s0, "agent": agent_id, "yielded": bool(capture)})
                 return line
             D.run_one_turn = wrapped
+            # the driver's scheduler calls, recorded for SchedulerTrace (select / yield with the state after the driver's
+            # own queue rotation, which is visible at the next select or at the end)
+            real_next, real_yield = D.next_turn, D.on_yield
+            sev: List[dict] = []
+            sst: Dict[str, Any] = {"state": None, "pending": None, "fair": None, "policy": None}
+
+            def settle():
+                pend, st = sst["pending"], sst["state"]
+                if pend is not None and st is not None:
+                    names_ = sorted(st["last_ran_ms"])
+                    idx = {n_: i_ + 1 for i_, n_ in enumerate(names_)}
+                    pend.update({"queue": [idx[x] for x in st["queue"]], "consec": [st["consec_turns"][n_] for n_ in names_],
+                                 "lastlo": [int(st["last_ran_ms"][n_]) % 100000 for n_ in names_], "lasthi": [int(st["last_ran_ms"][n_]) // 100000 for n_ in names_]})
+                    sev.append(pend)
+                    sst["pending"] = None
+
+            def next_spy(dctx, sched_state, policy=None, fairness_cfg=None, **kw):
+                sst["state"], sst["fair"], sst["policy"] = sched_state, dict(fairness_cfg or {}), policy
+                settle()
+                r_ = real_next(dctx, sched_state, policy=policy, fairness_cfg=fairness_cfg, **kw)
+                names_ = sorted(sched_state["last_ran_ms"])
+                if r_[0]:
+                    sev.append({"op": "select", "agent": names_.index(r_[0]) + 1, "reason": r_[2]})
+                return r_
+
+            def yield_spy(dctx, sched_state, agent_id, *a, **kw):
+                out_ = real_yield(dctx, sched_state, agent_id, *a, **kw)
+                names_ = sorted(sched_state["last_ran_ms"])
+                sst["pending"] = {"op": "yield", "agent": names_.index(agent_id) + 1}
+                return out_
+            D.next_turn, D.on_yield = next_spy, yield_spy
             try:
                 with open(os.devnull, "w") as devnull:
                     so = sys.stdout
@@ -118,7 +153,9 @@ def run_scenario(args) -> Dict[str, Any]:
                 err = f"{type(e).__name__}: {e}"
             finally:
                 D.run_one_turn = real_turn
+                D.next_turn, D.on_yield = real_next, real_yield
                 P.logs_dir = real_logs_dir
+            settle()
         p = os.path.join(logs, "scheduler.jsonl")
         if os.path.exists(p):
             with open(p) as f:
@@ -132,7 +169,13 @@ def run_scenario(args) -> Dict[str, Any]:
             else:
                 os.environ[k] = v
         shutil.rmtree(work, ignore_errors=True)
-    return {"tid": tidn, "ev": ev, "err": err, "sched_lines": sched_lines, "name": sc["name"], "steps": sc["steps"],
+    strace = None
+    if ev and all(e["yielded"] for e in ev) and sst["state"] is not None and not err:
+        fair = sst["fair"] or {}
+        strace = {"consts": {"N": len(sst["state"]["last_ran_ms"]), "Policy": sst["policy"] or "round_robin", "Mct": int(fair.get("max_consecutive_turns") or 1000),      # absent = unlimited in the code (10**9); 1000 stands for it in these short traces
+                             "Aging": int(fair.get("aging_ms", 0) or 0), "Rotate": (sst["policy"] or "round_robin") == "round_robin",
+                             "Advances": [], "MaxNow": 0, "MaxDepth": 0, "AllowLeave": False}, "ev": sev}
+    return {"tid": tidn, "ev": ev, "err": err, "sched_lines": sched_lines, "name": sc["name"], "steps": sc["steps"], "strace": strace,
             "graph_gate_lost": any(want and not got for want, got in seen_gates)}
 
 
@@ -179,6 +222,36 @@ def check(run) -> None:
             e = t["ev"][pos - 1] if 0 < pos <= len(t["ev"]) else None
             run.fail(verdict, {"clause": verdict, "scenario": names[t["tid"]]}, {"event": e, "position": pos},
                      f"demo scenario {names[t['tid']]} rejected at turn {pos} by {verdict}: {json.dumps(e)[:400]}", replay={"scenario": names[t["tid"]]})
+    # the driver's scheduler loop against Scheduler.tla (scenarios in which every slice yields, i.e. every select is
+    # followed by the driver's yield bookkeeping)
+    groups: Dict[str, List[dict]] = {}
+    for o in outs:
+        if o.get("strace"):
+            groups.setdefault(json.dumps(o["strace"]["consts"], sort_keys=True), []).append({"tid": o["tid"], "ev": o["strace"]["ev"]})
+    if not groups:
+        raise TLCError("X04: no scenario produced a scheduler trace")
+    for gi, (ck, ts) in enumerate(sorted(groups.items())):
+        consts_s = json.loads(ck)
+        ctl2 = copy.deepcopy(ts[0])
+        ctl2["tid"] = -ts[0]["tid"]
+        sel = [e for e in ctl2["ev"] if e["op"] == "select"]
+        sel[-1]["agent"] = sel[-1]["agent"] % consts_s["N"] + 1
+        vs = run.validate_traces("SchedulerTrace", consts_s, ts + [ctl2], name=f"SchedulerTrace_demo_{gi}", timeout_s=600)
+        for t in ts + [ctl2]:
+            verdict, pos = vs[t["tid"]]
+            if t["tid"] < 0:
+                if verdict == "ok":
+                    raise TLCError("SchedulerTrace accepted the corrupted demo trace")
+                run.ok("SchedulerTrace.negative_control_rejected")
+                continue
+            run.traces += 1
+            run.case(("demo_sched", names[t["tid"]]))
+            if verdict == "ok":
+                run.ok("SchedulerTrace.demo_loop_accepted")
+            else:
+                run.fail(verdict, {"clause": verdict, "scenario": names[t["tid"]], "spec": "Scheduler"}, {"event": t["ev"][pos - 1] if 0 < pos <= len(t["ev"]) else None, "position": pos},
+                         f"demo scenario {names[t['tid']]}: scheduler event {pos} rejected by {verdict}: {json.dumps(t['ev'][pos - 1] if 0 < pos <= len(t['ev']) else None)}",
+                         replay={"scenario": names[t["tid"]]})
     run.sample({"scenario": outs[5]["name"], "events": outs[5]["ev"][:2]}, cap=3)
     run.extra["yield_stages_seen"] = sorted({e["inp"]["yield_at"] for t in traces for e in t["ev"]})
     if any(o.get("graph_gate_lost") for o in outs):
